@@ -4,6 +4,7 @@ package main
 // property (DESIGN.md 8.6). All are decided on values and conditions, not on statement shapes.
 
 import (
+	"encoding/json"
 	"go/constant"
 	"go/token"
 	"go/types"
@@ -154,6 +155,9 @@ func ruleConstIdx(c *Ctx, r *Rep) {
 					continue
 				}
 				ln, ok := constLen(ia.X)
+				if !ok {
+					ln, ok = lenBoundFromGuards(ia.X, b)
+				}
 				if !ok {
 					continue
 				}
@@ -1013,4 +1017,775 @@ func sameLoad(a, b ssa.Value) bool {
 		}
 	}
 	return false
+}
+
+// lenBoundFromGuards: an upper bound (exclusive) on the valid indexes of s in block b that the branch conditions on
+// the way establish: len(s) == n, len(s) <= n, len(s) < n on the edge taken.
+func lenBoundFromGuards(s ssa.Value, b *ssa.BasicBlock) (int64, bool) {
+	best, have := int64(0), false
+	for _, g := range guardsOf(b) {
+		cond, truth := g.Cond, g.Truth
+		if u, ok := cond.(*ssa.UnOp); ok && u.Op == token.NOT {
+			cond, truth = u.X, !truth
+		}
+		bin, ok := cond.(*ssa.BinOp)
+		if !ok {
+			continue
+		}
+		of, isLen := lenOperand(bin.X)
+		k, isK := bin.Y.(*ssa.Const)
+		op := bin.Op
+		if !isLen || !isK {
+			of, isLen = lenOperand(bin.Y)
+			k, isK = bin.X.(*ssa.Const)
+			op = map[token.Token]token.Token{token.LSS: token.GTR, token.GTR: token.LSS, token.LEQ: token.GEQ, token.GEQ: token.LEQ, token.EQL: token.EQL, token.NEQ: token.NEQ}[op]
+		}
+		if !isLen || !isK || k.Value == nil || of != s {
+			continue
+		}
+		if !truth {
+			op = map[token.Token]token.Token{token.LSS: token.GEQ, token.GEQ: token.LSS, token.GTR: token.LEQ, token.LEQ: token.GTR, token.EQL: token.NEQ, token.NEQ: token.EQL}[op]
+		}
+		// on this edge: len(s) op k
+		var bound int64
+		switch op {
+		case token.EQL, token.LEQ:
+			bound = k.Int64()
+		case token.LSS:
+			bound = k.Int64() - 1
+		default:
+			continue
+		}
+		if !have || bound < best {
+			best, have = bound, true
+		}
+	}
+	return best, have
+}
+
+// ---------------------------------------------------------------------------
+
+func init() {
+	register(&Rule{Name: "SCHEMA-VERSION", Floor: 1, Run: ruleSchemaVersion,
+		Doc: "the configuration reader of a package is registered under exactly the version numbers the package's embedded schemas admit for the version field, and every request for a reader by constant number asks for a registered one"})
+	register(&Rule{Name: "DEFAULT-WHEN-EMPTY", Floor: 1, Run: ruleDefaultWhenEmpty,
+		Doc: "an omitted key or signature algorithm is not an unknown one: where the name is looked up in the algorithm table, the error for a name that is not in it lies behind a test that the name is non-empty"})
+}
+
+func schemaIntEnum(c *Ctx, pkgSuffix, file string, path ...string) ([]int64, string) {
+	b, _, err := c.EmbeddedFile(pkgSuffix, file)
+	if err != nil {
+		return nil, err.Error()
+	}
+	var cur any
+	if err := json.Unmarshal(b, &cur); err != nil {
+		return nil, err.Error()
+	}
+	for _, p := range path {
+		m, ok := cur.(map[string]any)
+		if !ok {
+			return nil, "schema path " + strings.Join(path, ".") + " not found in " + file
+		}
+		cur = m[p]
+	}
+	list, ok := cur.([]any)
+	if !ok {
+		return nil, "no enum at " + strings.Join(path, ".") + " in " + file
+	}
+	var out []int64
+	for _, x := range list {
+		if f, ok := x.(float64); ok && f == float64(int64(f)) {
+			out = append(out, int64(f))
+		}
+	}
+	return out, ""
+}
+
+func ruleSchemaVersion(c *Ctx, r *Rep) {
+	// the registry: a package-level map[int]<interface>; its writer and reader by parameter
+	var reg *ssa.Global
+	var adder, getter *ssa.Function
+	for _, fn := range c.Funcs {
+		if fn.Parent() != nil || len(fn.Params) == 0 {
+			continue
+		}
+		for _, b := range fn.Blocks {
+			for _, ins := range b.Instrs {
+				switch x := ins.(type) {
+				case *ssa.MapUpdate:
+					if g := loadedGlobal(x.Map); g != nil && x.Key == ssa.Value(fn.Params[0]) && isIntKeyedIfaceMap(g.Type()) {
+						reg, adder = g, fn
+					}
+				case *ssa.Lookup:
+					if g := loadedGlobal(x.X); g != nil && x.Index == ssa.Value(fn.Params[0]) && isIntKeyedIfaceMap(g.Type()) {
+						getter = fn
+					}
+				}
+			}
+		}
+	}
+	if reg == nil || adder == nil {
+		r.Undecided("anchor:reader-registry", "", "no package-level map[int]<interface> written by a function under its first parameter")
+		return
+	}
+	registered := map[int64]bool{}
+	n := 0
+	for _, fn := range c.Funcs {
+		for _, ci := range callsIn(fn) {
+			if ci.Common().StaticCallee() != adder {
+				continue
+			}
+			n++
+			k, ok := ci.Common().Args[0].(*ssa.Const)
+			if !ok || k.Value == nil {
+				r.Undecided("shape:registration|"+c.FuncKey(fn), c.Pos(ci.Pos()), "registered under a number that is not a constant")
+				continue
+			}
+			registered[k.Int64()] = true
+			// the schemas embedded in the registering package
+			pkgSuffix := strings.TrimPrefix(fn.Pkg.Pkg.Path(), c.Mod+"/")
+			for _, file := range []string{"certificate.json", "profile.json"} {
+				enum, why := schemaIntEnum(c, pkgSuffix, file, "properties", "version", "enum")
+				if why != "" {
+					r.Undecided("anchor:"+file, c.Pos(ci.Pos()), why)
+					continue
+				}
+				in := false
+				for _, e := range enum {
+					if e == k.Int64() {
+						in = true
+					}
+				}
+				r.Check(in && len(enum) == 1, sprintf("registered-version|%s|%s", c.shortPkg(fn.Pkg.Pkg.Path()), file), c.Pos(ci.Pos()),
+					sprintf("registered under the one version %s admits: %v", file, enum), sprintf("%d", k.Int64()))
+			}
+		}
+	}
+	if n == 0 {
+		r.Bad("registration", c.FnPos(adder), "a configuration reader is registered", "no call of "+c.FuncKey(adder))
+	}
+	if getter != nil {
+		for _, fn := range c.Funcs {
+			k := 0
+			for _, ci := range callsIn(fn) {
+				if ci.Common().StaticCallee() != getter {
+					continue
+				}
+				if kc, ok := ci.Common().Args[0].(*ssa.Const); ok && kc.Value != nil {
+					k++
+					r.Check(registered[kc.Int64()], sprintf("requested-version|%s#%d", c.FuncKey(fn), k), c.Pos(ci.Pos()), "a registered version", sprintf("%d", kc.Int64()))
+				}
+			}
+		}
+	}
+}
+
+func isIntKeyedIfaceMap(t types.Type) bool {
+	if p, ok := t.Underlying().(*types.Pointer); ok {
+		t = p.Elem()
+	}
+	m, ok := t.Underlying().(*types.Map)
+	if !ok {
+		return false
+	}
+	b, ok := m.Key().Underlying().(*types.Basic)
+	if !ok || b.Info()&types.IsInteger == 0 {
+		return false
+	}
+	_, isIface := m.Elem().Underlying().(*types.Interface)
+	return isIface
+}
+
+func ruleDefaultWhenEmpty(c *Ctx, r *Rep) {
+	pv := c.newProv()
+	n := 0
+	for _, fn := range c.Funcs {
+		k := 0
+		for _, b := range fn.Blocks {
+			for _, ins := range b.Instrs {
+				lk, ok := ins.(*ssa.Lookup)
+				if !ok || !lk.CommaOk || loadedGlobal(lk.X) == nil {
+					continue
+				}
+				if !isString(lk.Index.Type()) {
+					continue // a lookup by the parsed algorithm, not by its name
+				}
+				o := pv.Origins(lk.Index)
+				if len(o) != 1 {
+					continue
+				}
+				named := o[0]
+				// the name may arrive as a parameter of a helper: what its callers hand in
+				for i, prm := range fn.Params {
+					if o[0] != "P("+c.FuncKey(fn)+"."+prm.Name()+")" {
+						continue
+					}
+					for _, caller := range c.Funcs {
+						for _, ci := range callsIn(caller) {
+							if ci.Common().StaticCallee() == fn && i < len(ci.Common().Args) {
+								if ao := pv.Origins(ci.Common().Args[i]); len(ao) == 1 {
+									named = ao[0]
+								}
+							}
+						}
+					}
+				}
+				if !(strings.HasSuffix(named, ".KeyAlgorithm") || strings.HasSuffix(named, ".SignatureAlgorithm")) {
+					continue
+				}
+				// the exits that report the name as unknown: error returns behind `ok == false`
+				for _, ref := range *lk.Referrers() {
+					ex, isEx := ref.(*ssa.Extract)
+					if !isEx || ex.Index != 1 {
+						continue
+					}
+					for _, ret := range returnsOf(fn) {
+						if !returnsNonNilError(ret) {
+							continue
+						}
+						behindMiss := false
+						for _, g := range guardsOf(ret.Block()) {
+							cond, truth := g.Cond, g.Truth
+							if u, isNot := cond.(*ssa.UnOp); isNot && u.Op == token.NOT {
+								cond, truth = u.X, !truth
+							}
+							// ok may have been stored into a variable first: compare through loads of the same cell
+							if cond == ssa.Value(ex) && !truth || storedThenLoaded(ex, cond) && !truth {
+								behindMiss = true
+							}
+						}
+						if !behindMiss {
+							continue
+						}
+						k++
+						n++
+						okGuard, found := false, "no test of the name on the way"
+						for _, g := range guardsOf(ret.Block()) {
+							x, empty, isTest := emptyTestOf(g.Cond, g.Truth)
+							if !isTest {
+								continue
+							}
+							if xo := pv.Origins(x); len(xo) == 1 && xo[0] == o[0] {
+								if !empty {
+									okGuard, found = true, "so"
+								} else {
+									found = "behind the test that the name is empty"
+								}
+							}
+						}
+						field := named[strings.LastIndex(named, ".")+1:]
+						r.Check(okGuard, sprintf("unknown-only-when-given|%s|%s#%d", field, c.FuncKey(fn), k), c.Pos(ret.Pos()), "the error for an unknown "+field+" lies behind a test that the name is non-empty", found)
+					}
+				}
+			}
+		}
+	}
+	if n == 0 {
+		r.Undecided("anchor:algorithm-lookup", "", "no table lookup keyed by the KeyAlgorithm / SignatureAlgorithm field with an error for a miss")
+	}
+}
+
+// storedThenLoaded: v is stored into a local cell and cond is a load of that cell.
+func storedThenLoaded(v ssa.Value, cond ssa.Value) bool {
+	ld, ok := cond.(*ssa.UnOp)
+	if !ok || ld.Op != token.MUL {
+		return false
+	}
+	for _, ref := range *v.Referrers() {
+		if st, ok := ref.(*ssa.Store); ok && st.Val == v && st.Addr == ld.X {
+			return true
+		}
+	}
+	return false
+}
+
+// ---------------------------------------------------------------------------
+
+func init() {
+	register(&Rule{Name: "PARSE-EXT", Floor: 1, Run: ruleParseExt,
+		Doc: "the reader of the extension list looks at every field of an entry (field index 0 up to NumField()-1), takes a non-nil one as the extension, refuses a second one and refuses an entry without any: the found-flag starts false, becomes true only behind the non-nil test, a set flag before taking one and a clear flag after the fields are errors"})
+}
+
+func ruleParseExt(c *Ctx, r *Rep) {
+	// the reader: []AnyExtension -> ([]ExtensionConfig, error)
+	var fn *ssa.Function
+	for _, f := range c.Funcs {
+		if f.Parent() != nil || len(f.Params) != 1 || f.Signature.Results().Len() != 2 {
+			continue
+		}
+		ps, ok1 := f.Params[0].Type().Underlying().(*types.Slice)
+		rs0, ok2 := f.Signature.Results().At(0).Type().Underlying().(*types.Slice)
+		if ok1 && ok2 && strings.HasSuffix(typeShort(c, ps.Elem()), "AnyExtension") && strings.HasSuffix(typeShort(c, rs0.Elem()), "ExtensionConfig") {
+			fn = f
+		}
+	}
+	if fn == nil {
+		r.Undecided("anchor:extension-reader", "", "no func([]AnyExtension) ([]ExtensionConfig, error)")
+		return
+	}
+	fk := c.FuncKey(fn)
+	r.Ok("reader|"+fk, c.FnPos(fn), "the reader of the extension list", "found")
+	loops := naturalLoops(fn)
+	// the loop over the fields: its variable indexes reflect's Field(j)
+	var fieldVar *ssa.Phi
+	for _, ci := range callsIn(fn) {
+		if calleeFullName(ci) == "(reflect.Value).Field" && len(ci.Common().Args) == 2 {
+			if p, ok := ci.Common().Args[1].(*ssa.Phi); ok {
+				fieldVar = p
+			}
+		}
+	}
+	if fieldVar == nil {
+		return // not written over reflect's field list: the remaining obligations do not apply
+	}
+	inner := loops[fieldVar.Block()]
+	if inner == nil {
+		r.Undecided("shape:field-loop|"+fk, c.Pos(fieldVar.Pos()), "the field index is not a loop variable")
+		return
+	}
+	// range of the field index: 0 .. NumField()-1
+	{
+		init, next, ok := carriedRound(fieldVar, inner)
+		good, how := false, "not a counted loop"
+		if ok {
+			how = "from " + init.String() + ", next " + next.String()
+			if iff, isIf := lastInstr(fieldVar.Block()).(*ssa.If); isIf {
+				if bin, isBin := iff.Cond.(*ssa.BinOp); isBin && bin.X == ssa.Value(fieldVar) && bin.Op == token.LSS && inner[fieldVar.Block().Succs[0]] {
+					if call, isCall := bin.Y.(*ssa.Call); isCall && calleeFullName(call) == "(reflect.Value).NumField" {
+						good = isConstInt(init, 0) && plusOne(next, fieldVar)
+						how += ", while index < NumField()"
+					}
+				}
+			}
+		}
+		r.Check(good, "all-fields|"+fk, c.Pos(fieldVar.Pos()), "field index 0, 1, … while below NumField()", how)
+	}
+	// the flag: a boolean phi at the head of the field loop
+	for _, ins := range fieldVar.Block().Instrs {
+		flag, ok := ins.(*ssa.Phi)
+		if !ok {
+			break
+		}
+		if bt, isB := flag.Type().Underlying().(*types.Basic); !isB || bt.Kind() != types.Bool {
+			continue
+		}
+		hit := func(b *ssa.BasicBlock) bool {
+			for _, g := range guardsOf(b) {
+				if call, ok := g.Cond.(*ssa.Call); ok && !g.Truth && calleeFullName(call) == "(reflect.Value).IsNil" {
+					return true
+				}
+			}
+			return false
+		}
+		okSrc, how := true, ""
+		nTrue := 0
+		for _, pe := range phiEdges(flag, flag.Block()) {
+			k, isK := pe.Val.(*ssa.Const)
+			if !isK || k.Value == nil {
+				okSrc, how = false, "set from "+pe.Val.String()
+				continue
+			}
+			if constBool(k) {
+				nTrue++
+				if !hit(pe.From) {
+					okSrc, how = false, "set true at "+c.Pos(pe.From.Instrs[0].Pos())+" without the non-nil test before it"
+				}
+			} else if inner[pe.From] {
+				okSrc, how = false, "cleared inside the loop over the fields"
+			}
+		}
+		if nTrue == 0 {
+			okSrc, how = false, "never set"
+		}
+		r.Check(okSrc, "found-flag|"+fk, c.Pos(flag.Pos()), "false before the fields, true only behind a non-nil field", how)
+		// its tests
+		dupl, none := false, false
+		for _, b := range fn.Blocks {
+			iff, ok := lastInstr(b).(*ssa.If)
+			if !ok {
+				continue
+			}
+			cond, neg := iff.Cond, false
+			if u, isNot := cond.(*ssa.UnOp); isNot && u.Op == token.NOT {
+				cond, neg = u.X, true
+			}
+			isFlag := cond == ssa.Value(flag)
+			if p, isPhi := cond.(*ssa.Phi); isPhi && !isFlag {
+				for _, e := range p.Edges {
+					if e == ssa.Value(flag) {
+						isFlag = true // the flag as it stands after the loop
+					}
+				}
+			}
+			if !isFlag {
+				continue
+			}
+			setIdx, clearIdx := 0, 1
+			if neg {
+				setIdx, clearIdx = 1, 0
+			}
+			if inner[b] {
+				ret := exitAfter(b.Succs[setIdx])
+				dupl = true
+				r.Check(ret != nil && returnsNonNilError(ret), "second-extension-refused|"+fk, c.Pos(iff.Pos()), "a second non-nil field in one entry is an error", sprintf("%v", ret != nil))
+			} else {
+				ret := exitAfter(b.Succs[clearIdx])
+				none = true
+				r.Check(ret != nil && returnsNonNilError(ret), "empty-entry-refused|"+fk, c.Pos(iff.Pos()), "an entry without any non-nil field is an error", sprintf("%v", ret != nil))
+			}
+		}
+		r.Check(dupl && none, "flag-tested|"+fk, c.Pos(flag.Pos()), "the flag is tested before taking a field and after the fields", sprintf("before: %v, after: %v", dupl, none))
+	}
+}
+
+// ---------------------------------------------------------------------------
+
+func init() {
+	register(&Rule{Name: "RAW-TABLE", Floor: 3, Run: ruleRawTable,
+		Doc: "the handler every extension reader calls first decides by raw and content as documented, on every path: neither given - the builder that demands an override; both - an error; raw alone - the constant extension from the raw bytes; content a binary string - the constant extension from its bytes; other content - nothing (the reader builds it)"})
+}
+
+func ruleRawTable(c *Ctx, r *Rep) {
+	// the handler: func(any) (ExtensionBuilder, error) in the v1 package
+	var fn *ssa.Function
+	for _, f := range c.Funcs {
+		if f.Parent() != nil || len(f.Params) != 1 || f.Signature.Results().Len() != 2 {
+			continue
+		}
+		if _, isAny := f.Params[0].Type().Underlying().(*types.Interface); !isAny {
+			continue
+		}
+		if strings.HasSuffix(typeShort(c, f.Signature.Results().At(0).Type()), "cert.ExtensionBuilder") && isErrorType(f.Signature.Results().At(1).Type()) {
+			if fn != nil {
+				r.Undecided("anchor:common-handler", "", "more than one func(any) (ExtensionBuilder, error)")
+				return
+			}
+			fn = f
+		}
+	}
+	if fn == nil {
+		r.Undecided("anchor:common-handler", "", "no func(any) (ExtensionBuilder, error)")
+		return
+	}
+	if hasLoop(fn) {
+		r.Undecided("shape:"+c.FuncKey(fn), c.FnPos(fn), "the handler has a loop: its paths are not enumerated")
+		return
+	}
+	fk := c.FuncKey(fn)
+	pv := c.newProv()
+	a := &atomizer{c: c, pv: pv, fn: fn, normEmpty: true}
+	// the atoms of the decision
+	classify := func(atom string) string {
+		switch {
+		case strings.HasPrefix(atom, "empty(") && strings.Contains(atom, "\"Raw\""):
+			return "rawEmpty"
+		case strings.HasPrefix(atom, "empty(") && strings.Contains(atom, "\"Content\""):
+			return "ctEmptyString"
+		case strings.Contains(atom, "IsZero(") && strings.Contains(atom, "\"Content\""):
+			return "ctZero"
+		case strings.Contains(atom, "HasPrefix(") && strings.Contains(strings.SplitN(atom, " ; ", 2)[0], "\"Content\""):
+			return "ctBinary"
+		case strings.Contains(atom, "Kind(") && strings.Contains(atom, "\"Content\"") && strings.Contains(atom, "K(0)"):
+			return "ctKindInvalid:" + atom[:2]
+		}
+		return ""
+	}
+	for i, ret := range returnsOf(fn) {
+		res := retResults(ret)
+		kind := "?"
+		switch {
+		case returnsNonNilError(ret):
+			kind = "error"
+		default:
+			switch v := res[0].(type) {
+			case *ssa.Const:
+				kind = "nothing"
+			case *ssa.MakeInterface:
+				t := typeShort(c, v.X.Type())
+				switch {
+				case strings.HasSuffix(t, "OverrideNeededBuilder"):
+					kind = "override-needed"
+				case strings.HasSuffix(t, "ConstantBuilder"):
+					kind = "constant"
+					o := strings.Join(pv.Origins(v.X), " ")
+					switch {
+					case strings.Contains(o, "\"Raw\""):
+						kind = "constant-from-raw"
+					case strings.Contains(o, "\"Content\""):
+						kind = "constant-from-content"
+					}
+				}
+			}
+		}
+		paths, ok := a.pathsDNF(fn.Blocks[0], ret.Block(), 4000)
+		if !ok {
+			r.Undecided(sprintf("shape:exit|%s#%d", fk, i+1), c.Pos(ret.Pos()), "too many paths")
+			continue
+		}
+		bad := ""
+		nFeasible := 0
+		for _, p := range paths {
+			asg := map[string]bool{}
+			env := false
+			feasible := true
+			seen := map[string]bool{}
+			for _, l := range p {
+				if was, dup := seen[l.atom]; dup && was != l.pos {
+					feasible = false
+				}
+				seen[l.atom] = l.pos
+				cl := classify(l.atom)
+				env = cl == "" // the last test before the exit is one of the handler's own sanity tests
+				switch {
+				case cl == "":
+				case strings.HasPrefix(cl, "ctKindInvalid:"):
+					// the atom is `!=(Kind ; 0)` or `==(Kind ; 0)`
+					isInvalid := l.pos
+					if strings.HasPrefix(cl, "ctKindInvalid:!=") {
+						isInvalid = !l.pos
+					}
+					asg["ctInvalid"] = isInvalid
+				default:
+					asg[cl] = l.pos
+				}
+			}
+			if !feasible {
+				continue
+			}
+			nFeasible++
+			// every completion of what the path left open
+			names := []string{"rawEmpty", "ctInvalid", "ctZero", "ctEmptyString", "ctBinary"}
+			var free []string
+			for _, n := range names {
+				if _, ok := asg[n]; !ok {
+					free = append(free, n)
+				}
+			}
+			for mask := 0; mask < 1<<len(free); mask++ {
+				v := map[string]bool{}
+				for k, b := range asg {
+					v[k] = b
+				}
+				for j, n := range free {
+					v[n] = mask&(1<<j) != 0
+				}
+				if v["ctInvalid"] && !v["ctZero"] {
+					continue // a field that does not exist has no value to be non-zero (IsZero is not asked)
+				}
+				if v["ctEmptyString"] && v["ctBinary"] {
+					continue // an empty string does not begin with the prefix
+				}
+				ctExists := !v["ctInvalid"] && !v["ctZero"]
+				binary := !v["ctEmptyString"] && v["ctBinary"]
+				want := ""
+				switch {
+				case v["rawEmpty"] && !ctExists:
+					want = "override-needed"
+				case !v["rawEmpty"] && ctExists:
+					want = "error"
+				case !v["rawEmpty"]:
+					want = "constant-from-raw"
+				case binary:
+					want = "constant-from-content"
+				default:
+					want = "nothing"
+				}
+				if kind != want && !(kind == "error" && env) {
+					bad = sprintf("answers %s where %s is due (raw empty=%v, content exists=%v, content binary=%v)", kind, want, v["rawEmpty"], ctExists, binary)
+				}
+			}
+		}
+		if nFeasible == 0 {
+			continue
+		}
+		r.Check(bad == "", sprintf("exit|%s|%s#%d", kind, fk, i+1), c.Pos(ret.Pos()), "the answer the table of raw and content prescribes", bad)
+	}
+}
+
+// ---------------------------------------------------------------------------
+
+// lenTautology: a comparison of len(x) with a constant that comes out the same for every length (len(x) >= 0, len(x) < 0, …).
+func lenTautology(cond ssa.Value) (val, ok bool) {
+	bin, isBin := cond.(*ssa.BinOp)
+	if !isBin {
+		return false, false
+	}
+	var pred func(n int64) (bool, bool)
+	cmp := func(op token.Token, a, b int64) (bool, bool) {
+		switch op {
+		case token.EQL:
+			return a == b, true
+		case token.NEQ:
+			return a != b, true
+		case token.LSS:
+			return a < b, true
+		case token.LEQ:
+			return a <= b, true
+		case token.GTR:
+			return a > b, true
+		case token.GEQ:
+			return a >= b, true
+		}
+		return false, false
+	}
+	if k, isK := bin.Y.(*ssa.Const); isK && k.Value != nil && k.Value.Kind() == constant.Int {
+		if _, isLen := lenOperand(bin.X); isLen {
+			pred = func(n int64) (bool, bool) { return cmp(bin.Op, n, k.Int64()) }
+		}
+	}
+	if k, isK := bin.X.(*ssa.Const); isK && k.Value != nil && k.Value.Kind() == constant.Int && pred == nil {
+		if _, isLen := lenOperand(bin.Y); isLen {
+			pred = func(n int64) (bool, bool) { return cmp(bin.Op, k.Int64(), n) }
+		}
+	}
+	if pred == nil {
+		return false, false
+	}
+	at0, ok0 := pred(0)
+	if !ok0 {
+		return false, false
+	}
+	for _, n := range []int64{1, 2, 3, 4, 5, 8, 16, 64, 1 << 20, 1 << 40} {
+		if v, _ := pred(n); v != at0 {
+			return false, false
+		}
+	}
+	// constant for the lengths tried; a threshold beyond them (len(x) > 100) is not decided here
+	if k, isK := bin.Y.(*ssa.Const); isK && k.Value != nil && k.Value.Kind() == constant.Int && k.Int64() > 0 {
+		return false, false
+	}
+	if k, isK := bin.X.(*ssa.Const); isK && k.Value != nil && k.Value.Kind() == constant.Int && k.Int64() > 0 {
+		return false, false
+	}
+	return at0, true
+}
+
+func init() {
+	register(&Rule{Name: "LINT-TAUTLEN", Floor: 0, Run: ruleTautLen, Fixture: "fixture.lengthNeverNegative",
+		Doc: "no branch depends on a comparison of a length with a constant that no length can decide (len(x) >= 0, len(x) < 0), and the length of a string is compared with a constant only to tell empty from non-empty: where the presence of an optional value is tested, the test fails exactly for the empty one (all such tests of today's tree are of this form; the instances are listed in the evidence)"})
+}
+
+func ruleTautLen(c *Ctx, r *Rep) {
+	n := 0
+	for _, fn := range c.Funcs {
+		k := 0
+		for _, b := range fn.Blocks {
+			iff, ok := lastInstr(b).(*ssa.If)
+			if !ok {
+				continue
+			}
+			cond := iff.Cond
+			if u, isNot := cond.(*ssa.UnOp); isNot && u.Op == token.NOT {
+				cond = u.X
+			}
+			bin, isBin := cond.(*ssa.BinOp)
+			if !isBin {
+				continue
+			}
+			_, lx := lenOperand(bin.X)
+			_, ly := lenOperand(bin.Y)
+			_, kx := bin.X.(*ssa.Const)
+			_, ky := bin.Y.(*ssa.Const)
+			if !(lx && ky || ly && kx) {
+				continue
+			}
+			k++
+			n++
+			v, taut := lenTautology(cond)
+			kind := "threshold"
+			if _, _, isE := emptyTestOf(cond, true); isE {
+				kind = "emptiness"
+			}
+			of, _ := lenOperand(bin.X)
+			if of == nil {
+				of, _ = lenOperand(bin.Y)
+			}
+			found := sprintf("a test of %s of a %s", kind, of.Type())
+			if taut {
+				found = sprintf("always %v", v)
+			}
+			r.Check(!taut, sprintf("length-test|%s#%d", c.FuncKey(fn), k), c.Pos(bin.Pos()), "a comparison some length decides either way", found)
+			if isString(of.Type()) && !taut {
+				r.Check(kind == "emptiness", sprintf("string-length-test|%s#%d", c.FuncKey(fn), k), c.Pos(bin.Pos()), "the length of a string is compared with a constant only to tell the empty from the non-empty (an optional value is absent exactly when it is empty)", "a threshold other than emptiness")
+			}
+		}
+	}
+	_ = n
+}
+
+// ---------------------------------------------------------------------------
+
+func init() {
+	register(&Rule{Name: "LINT-ARRFILL", Floor: 0, Run: ruleArrFill, Fixture: "fixture.arrayFilledFromWrongCount",
+		Doc: "where a fixed-size array is filled element by element from a list whose length was tested against a constant, that constant is the array's length (four octets for a four-byte address)"})
+}
+
+func ruleArrFill(c *Ctx, r *Rep) {
+	for _, fn := range c.Funcs {
+		n := 0
+		for _, b := range fn.Blocks {
+			for _, ins := range b.Instrs {
+				ia, ok := ins.(*ssa.IndexAddr)
+				if !ok {
+					continue
+				}
+				p, ok := ia.X.Type().Underlying().(*types.Pointer)
+				if !ok {
+					continue
+				}
+				arr, ok := p.Elem().Underlying().(*types.Array)
+				if !ok {
+					continue
+				}
+				if _, isK := ia.Index.(*ssa.Const); isK {
+					continue
+				}
+				// written here?
+				written := false
+				for _, ref := range *ia.Referrers() {
+					if st, ok := ref.(*ssa.Store); ok && st.Addr == ssa.Value(ia) {
+						written = true
+					}
+				}
+				if !written {
+					continue
+				}
+				// the index is bounded by the length of a list: idx < len(s) on the way here
+				var list ssa.Value
+				for _, g := range guardsOf(b) {
+					bin, ok := g.Cond.(*ssa.BinOp)
+					if !ok || !g.Truth || bin.Op != token.LSS || bin.X != ia.Index {
+						continue
+					}
+					if s, isLen := lenOperand(bin.Y); isLen {
+						list = s
+					}
+				}
+				if list == nil {
+					continue
+				}
+				// what the guards say about len(list)
+				for _, g := range guardsOf(b) {
+					cond, truth := g.Cond, g.Truth
+					if u, ok := cond.(*ssa.UnOp); ok && u.Op == token.NOT {
+						cond, truth = u.X, !truth
+					}
+					bin, ok := cond.(*ssa.BinOp)
+					if !ok || (bin.Op != token.EQL && bin.Op != token.NEQ) {
+						continue
+					}
+					s, isLen := lenOperand(bin.X)
+					k, isK := bin.Y.(*ssa.Const)
+					if !isLen || !isK || k.Value == nil || s != list {
+						continue
+					}
+					if (bin.Op == token.EQL) != truth {
+						continue // on this edge the length merely differs from the constant
+					}
+					n++
+					r.Check(k.Int64() == arr.Len(), sprintf("fill|%s#%d", c.FuncKey(fn), n), c.Pos(ia.Pos()), sprintf("the list has %d elements, as many as the array", arr.Len()), sprintf("%d", k.Int64()))
+				}
+			}
+		}
+	}
 }
